@@ -199,6 +199,7 @@ def edits_of(tree):
                     out.append(("join-insert", i, p))
             for p in range(len(joins)):
                 out.append(("join-delete", i, p))
+                out.append(("join-pop", i, p))  # through the public pop(): removing the last one leaves joins=[] behind
             for p in range(len(joins) - 1):
                 out.append(("join-swap", i, p))
         if isinstance(n, (exp.Where, exp.Having)) and isinstance(n.this, exp.Expr):
@@ -254,6 +255,8 @@ def apply_edit(tree, e):
         js = list(n.args.get("joins") or [])
         del js[e[2]]
         n.set("joins", js or None)
+    elif kind == "join-pop":
+        n.args["joins"][e[2]].pop()
     elif kind == "join-swap":
         js = list(n.args.get("joins") or [])
         js[e[2]], js[e[2] + 1] = js[e[2] + 1], js[e[2]]
@@ -649,7 +652,7 @@ def sequences(sql, k, depth):
                 if not _valid(c) or (e[0] == "recase" and not _valid_spelling(c)):
                     continue
                 r = repr(c)
-                if r in seen:
+                if r in seen and e[0] != "join-pop":  # pop() back to an earlier tree leaves an empty list behind: equal, yet not the same object state
                     continue
                 seen.add(r)
                 out.append(edits + (e,))
